@@ -23,6 +23,7 @@
  R8 mode copy    : the selected mode is copied onto the request completely and identically in every copy block.
  Rn arg roles     : a variable named like a parameter of the callee is handed to that parameter (no exchanged roles).
  R9 path lookup  : each internal ROADM path is registered with the impairment profile looked up for the same (from, to) pair.
+ R10 profile order: impairment profiles keep their listing order (first of a kind = default).
 """
 import ast
 
@@ -30,7 +31,7 @@ from ..model import AnchorMissing, CannotAnalyse, walk_no_nested
 from ..poly import Rat, C, mk_atom, subst, lem_min, lem_max, lem_log
 from ..vg import Evaluator, vkey, spec, atoms_of, Const, merge_outcomes
 from ..effects import effects_of, reachable
-from .common import calls_to, site, key, attr_stores, kwarg
+from .common import calls_to, site, key, attr_stores, kwarg, enclosing
 
 EL = 'gnpy.core.elements'
 POLICY = ['target_pch_out_db', 'target_psd_out_mWperGHz', 'target_out_mWperSlotWidth']
@@ -419,6 +420,27 @@ def r_path_lookup(ctx):
     ctx.need('R9.path-lookup', 3)
 
 
+def r10_profile_order(ctx):
+    """R10: the impairment profiles of a ROADM type keep their LISTING order (the first profile of a kind is the default for
+    crossings of that kind): get_roadm_path_impairments returns the dict it fills while iterating the configured list, not a
+    re-ordered copy"""
+    from ..pattern import find
+    repo = ctx.repo
+    f = repo.method(repo.cls('RoadmParams', 'gnpy.core.parameters'), 'get_roadm_path_impairments')
+    fills = find('V_d[V_i] = RoadmImpairment(E_x)', f.node)
+    rets = [n for n in walk_no_nested(f.node) if isinstance(n, ast.Return) and n.value is not None]
+    ok = len(fills) == 1 and isinstance(enclosing(fills[0][0], ast.For), ast.For) and len(rets) >= 1 and \
+        isinstance(rets[-1].value, ast.Name) and rets[-1].value.id == fills[0][1]['V_d']
+    if ok:
+        lp = enclosing(fills[0][0], ast.For)
+        ok = isinstance(lp.iter, ast.Name) and lp.iter.id in f.params
+    ctx.check('R10.profile-order', site(f), ok, key(f, 'listing-order'),
+              'the impairment profiles are not returned in the order of the configured list: the default profile of a crossing kind (the '
+              'first listed) would change and another roadm-maxloss / OSNR be applied',
+              ast.unparse(rets[-1].value)[:80] if rets else '')
+    ctx.need('R10.profile-order', 1)
+
+
 from ..memo import rule_for as _memo_rule
 
 RULES_MEMO = ('Rm.memo', _memo_rule('C06', 'the equalisation computed for another spectrum or target would be applied'))
@@ -428,4 +450,4 @@ from ..presence import rule_for as _presence_rule
 
 RULES_PRESENCE = ('Rp.presence', _presence_rule('C06', 'a ROADM target of exactly 0 dBm would be ignored and another target applied'))
 
-RULES = [('R6.stateless', r6_stateless), ('R1.formula', r1_formula), ('R2.policy', r2_policy), ('R4.one-policy', r4_one_policy), ('R5.design', r5_design), RULES_MEMO, RULES_PRESENCE, ('R7.channel-order', r7_channel_order), ('Rk.field-key', rk_field_key), ('Rx.export-keys', rx_export_keys), ('Re.for-each', re_foreach), ('R8.mode-copy', r_mode_copy), ('Rn.arg-roles', rn_arg_roles), ('R9.path-lookup', r_path_lookup)]
+RULES = [('R6.stateless', r6_stateless), ('R1.formula', r1_formula), ('R2.policy', r2_policy), ('R4.one-policy', r4_one_policy), ('R5.design', r5_design), RULES_MEMO, RULES_PRESENCE, ('R7.channel-order', r7_channel_order), ('Rk.field-key', rk_field_key), ('Rx.export-keys', rx_export_keys), ('Re.for-each', re_foreach), ('R8.mode-copy', r_mode_copy), ('Rn.arg-roles', rn_arg_roles), ('R9.path-lookup', r_path_lookup), ('R10.profile-order', r10_profile_order)]
